@@ -9,7 +9,7 @@ NOTE_COMMON = ('Trusted: Lean 4.33 kernel (axioms audited per theorem: propext, 
 
 CLAIMED = {
     'C16': dict(level='proof', technique='Lean 4 proof (induction) of goroutine-model = slice function + differential correspondence Go vs model',
-                text='Each helper goroutine is modelled as a recursion that mirrors its loop (what it emits and what it leaves unread); '
+                text='Each helper goroutine (incl. Since, Echo, Seq, ChangePercent) is modelled as a recursion that mirrors its loop (what it emits and what it leaves unread); '
                      'Lean proves, for all inputs and parameters, that this equals the slice counterpart, that zips have the length of the '
                      'shortest input and that all inputs are consumed. The model is tied to the Go code by running both on the same cases '
                      '(outputs and per-input consumption) and the slice oracle is evaluated independently on the Go output.',
@@ -97,8 +97,8 @@ CLAIMED.update({
                      'that per-asset steps commute (so any worker count or completion order gives the same target), that a failure is reported and that re-running is idempotent on the modelled source. Go Sync is run with 1..8 workers, injected Get/Append/LastDate faults and delayed workers, built with -race, and compared with the model.',
                 design='§6 C12', note=NOTE_COMMON + ' Goroutine scheduling itself is explored by repetition under the race detector, not proved.'),
     'C13': dict(level='proof', technique='Lean 4 proofs over all interleavings of per-asset blocks (every pair once, protocol order inside an asset) and sortedness under the lawful comparator + correspondence of the Go Backtest with a recording report under -race',
-                text='The report sees an interleaving of the per-asset blocks; Lean proves for every interleaving (any worker count) that the writes are a permutation of all (asset, strategy) pairs and that each asset block keeps AssetBegin < writes in strategy order < AssetEnd; ranking by the lawful comparator is non-increasing (and the truncating comparator is shown not to be). '
-                     'Go Backtest is run with 1..8 workers, varying assets/strategies, a recording report (protocol automaton), the Data and HTML reports (ranking oracle incl. outcomes closer than one percentage point), all with -race.',
+                text='The report sees an interleaving of the per-asset blocks; Lean proves for every interleaving (any worker count) that the writes are a permutation of all (asset, strategy) pairs and that each asset block keeps AssetBegin < writes in strategy order < AssetEnd; ranking by the lawful comparator is non-increasing (and the truncating comparator is shown not to be); with outcomes that may be undefined (NaN) the comparator cmp.Compare(b, a) is a lawful total preorder, every sorted ranking is non-increasing on the defined outcomes with the undefined ones last and its head is the maximum, also for the insertion sort Go runs on short lists, while a comparator that treats NaN as equal to everything leaves [0, NaN, 1] unsorted. '
+                     'Go Backtest is run with 1..8 workers, varying assets/strategies, a recording report (protocol automaton), the Data and HTML reports (ranking oracle incl. outcomes closer than one percentage point and a scripted strategy whose outcome is NaN), look-back windows from 0 days, unknown and stale assets, a second run on the same report objects (also after a failed page write), all with -race.',
                 design='§6 C13', note=NOTE_COMMON + ' slices.SortFunc is trusted given a lawful comparator; HTML template rendering is trusted.'),
     'C19': dict(level='proof', technique='Lean 4 theorems about the reader loop over an abstract parser (delivered rows = decoded well-formed prefix; short records undecodable; non-200 is an error) + correspondence of the Go readers on generated and corrupted documents with a goroutine census',
                 text='The reader loops are total functions of the parser events: Lean proves the delivered rows are exactly the decoded records of the well-formed prefix and that a record shorter than a mapped column cannot be decoded. '
